@@ -6,8 +6,11 @@ import (
 	"sort"
 	"strings"
 
+	"verif/harness/internal/fake"
+	"verif/harness/internal/rig"
 	"verif/harness/internal/run"
 
+	"github.com/vektah/gqlparser/v2"
 	"github.com/vektah/gqlparser/v2/ast"
 )
 
@@ -168,6 +171,69 @@ func (p c04) Exec(c *run.Ctx, idx int, raw json.RawMessage) []run.Result {
 	sort.Strings(b)
 	if len(a)+len(b) > 0 {
 		add("routed-services-mismatch", fmt.Sprintf("contributing but not routed: %v; routed but not contributing: %v", a, b))
+	}
+	// history: a second Merge over the same parsed schema objects without the last service: its routing
+	// table must name only services of that second set, each declaring the field (fresh SDL as ground truth)
+	if k >= 2 {
+		parsed := make([]*ast.Schema, k)
+		for i := range sp.U.Services {
+			parsed[i], _ = gqlparser.LoadSchema(&ast.Source{Name: sp.U.Services[i].Name, Input: sp.U.Services[i].SDL})
+		}
+		first := doMergeParsed(parsed, sp.Perm, sp.Sanitize)
+		sub := append([]int{}, sp.Perm[:len(sp.Perm)-1]...)
+		second := doMergeParsed(parsed, sub, sp.Sanitize)
+		if first.err == nil && first.panic == nil && second.err == nil && second.panic == nil {
+			inSub := map[int]bool{}
+			for _, i := range sub {
+				inSub[i] = true
+			}
+			res.Counters["second_merge_checked"] = 1
+			for _, tn := range sortedKeys(second.res.TypeURLMap) {
+				for fn, url := range second.res.TypeURLMap[tn].Fields {
+					svc, known := urlToSvc[url]
+					switch {
+					case !known || !inSub[svc]:
+						add("second-merge: route-to-service-outside-the-merge", fmt.Sprintf("after Merge(%v), Merge(%v) over the same parsed schemas routes %s.%s to %q", sp.Perm, sub, tn, fn, url))
+					case !declares(svc, tn, fn):
+						add("second-merge: route-to-non-declaring-service", fmt.Sprintf("after Merge(%v), Merge(%v) over the same parsed schemas routes %s.%s to %s which does not declare it", sp.Perm, sub, tn, fn, sp.U.Services[svc].Name))
+					}
+				}
+			}
+		}
+	}
+	// start-up with one service failing its introspection (real introspector over the fake transport): the gateway
+	// either refuses to start or, if it starts, still routes every field to a service that declares it
+	if k >= 2 && idx%4 == 0 {
+		if rg, rerr := rig.NewServices(sp.U); rerr == nil {
+			rg.Cfg = rig.Config{Introspect: "e2e"}
+			if sp.Sanitize {
+				rg.Cfg.Merger = "sanitize"
+			}
+			down := sp.Perm[(idx/4)%len(sp.Perm)]
+			kind := []string{"transport-error", "status-500", "errors", "non-json"}[(idx/8)%4]
+			rg.Services[down].FaultFn = func(cl *fake.Call) *fake.Fault { return &fake.Fault{Kind: kind, Pos: -1} }
+			var urls []string
+			urlIdx := map[string]int{}
+			for _, i := range sp.Perm {
+				urls = append(urls, rg.URLs[i])
+				urlIdx[rg.URLs[i]] = i
+			}
+			serr := rg.StartGateway(urls)
+			res.Counters["startup_with_failed_introspection"] = 1
+			if serr == nil && rg.Merged != nil {
+				res.Counters["started_despite_failed_introspection"] = 1
+				for _, tn := range sortedKeys(rg.Merged.TypeURLMap) {
+					for fn, url := range rg.Merged.TypeURLMap[tn].Fields {
+						if svc, known := urlIdx[url]; !known || !declares(svc, tn, fn) {
+							add("startup-with-failed-introspection: route-to-non-declaring-service", fmt.Sprintf("service %s answered its introspection with %s; the gateway started and routes %s.%s to %q, which does not declare it", sp.U.Services[down].Name, kind, tn, fn, url))
+						}
+					}
+				}
+			} else if gp, isPanic := serr.(*rig.GatewayPanic); isPanic {
+				add("startup-with-failed-introspection: panic", fmt.Sprintf("%v\n%s", gp.Val, gp.Stack))
+			}
+			rg.Close()
+		}
 	}
 	res.Counters["fields_checked"] = checked
 	res.Tags = sortedKeys(tags)
